@@ -1426,3 +1426,47 @@ mod tests {
         assert_relative_eq!(lifted_f64[1], -2.75);
     }
 }
+
+/// Forwarding wrappers over the crate-private toroidal behaviour model.
+///
+/// Compiled only with the `verif-hooks` cargo feature; used by external
+/// verification harnesses.
+#[cfg(feature = "verif-hooks")]
+#[doc(hidden)]
+#[allow(missing_docs, clippy::missing_errors_doc)]
+pub mod verif_hooks_topology {
+    use super::{GlobalTopologyModel, ToroidalModel};
+    use crate::geometry::traits::coordinate::CoordinateScalar;
+    use crate::topology::traits::topological_space::ToroidalConstructionMode;
+
+    pub use super::GlobalTopologyModelError;
+
+    pub fn toroidal_validate_configuration<const D: usize>(
+        domain: [f64; D],
+    ) -> Result<(), GlobalTopologyModelError> {
+        ToroidalModel::new(domain, ToroidalConstructionMode::Canonicalized)
+            .validate_configuration()
+    }
+
+    pub fn toroidal_canonicalize_point_in_place<T: CoordinateScalar, const D: usize>(
+        domain: [f64; D],
+        coords: &mut [T; D],
+    ) -> Result<(), GlobalTopologyModelError> {
+        ToroidalModel::new(domain, ToroidalConstructionMode::Canonicalized)
+            .canonicalize_point_in_place(coords)
+    }
+
+    pub fn toroidal_lift_for_orientation<T: CoordinateScalar, const D: usize>(
+        domain: [f64; D],
+        periodic: bool,
+        coords: [T; D],
+        periodic_offset: Option<[i8; D]>,
+    ) -> Result<[T; D], GlobalTopologyModelError> {
+        let mode = if periodic {
+            ToroidalConstructionMode::PeriodicImagePoint
+        } else {
+            ToroidalConstructionMode::Canonicalized
+        };
+        ToroidalModel::new(domain, mode).lift_for_orientation(coords, periodic_offset)
+    }
+}
